@@ -2,7 +2,7 @@
 
    One producer (main(): file_queue_put once per file found by scan_dir / populate_scan_list, then
    file_queue_finish), N consumers (scanning_thread(): p = get(); while (p != NULL) { scan p; p = get(); }).
-   A step executes ONE op (QueueOps.op = one C statement touching shared state) of ONE thread; a
+   A step executes ONE op (QueueOps.qop = one C statement touching shared state) of ONE thread; a
    blocked op (QWait on a zero semaphore, QLock of a held mutex) has no step.  All interleavings are
    the paths of [qstep_thread]; nothing else (scanning, output, directory walking) touches the shared
    state of the queue, so those actions are not steps of this system.
